@@ -6,8 +6,10 @@ package drive
 import (
 	"encoding/json"
 	"fmt"
+	"io"
 	"runtime/debug"
 	"strings"
+	"testing/iotest"
 )
 
 // A Case is the JSON object describing one input (and, once executed, its recorded trace).
@@ -135,4 +137,20 @@ func ones(k int) []int {
 		w[i] = 1
 	}
 	return w
+}
+
+// readerOf delivers a text through one of the standard reader behaviours an io.Reader may show:
+// 0 everything at once, 1 one byte per Read, 2 half of what is asked, 3 the last data together with
+// io.EOF. The parsers take an io.Reader: what they read must not depend on how it is delivered.
+func readerOf(text string, kind int) io.Reader {
+	r := io.Reader(strings.NewReader(text))
+	switch kind {
+	case 1:
+		return iotest.OneByteReader(r)
+	case 2:
+		return iotest.HalfReader(r)
+	case 3:
+		return iotest.DataErrReader(r)
+	}
+	return r
 }
